@@ -65,6 +65,9 @@ def gen_filename(rng):
     if r < 0.12:
         return rng.choice([" ", "  ", " ", ";", ";;", "\"", ";", "；＂"])
     n = rng.randint(1, 12)
+    if r > 0.93:  # a long title, mostly non-ASCII
+        n = rng.randint(30, 120)
+        return "".join(rng.choice(NAME_ALPHABET[22:40] + ["a", " "]) for _ in range(n))
     return "".join(rng.choice(NAME_ALPHABET) for _ in range(n))
 
 
@@ -399,7 +402,7 @@ class C19Run(qsrun.QsRun):
         if not m:
             raise Violation("S-header", f"{what}: bad filename parameter in {cd!r}")
         if len(parts) == 3:
-            m2 = re.fullmatch(r" ?filename\*=UTF-8''([A-Za-z0-9%._~/!$&+^`|-]+)", parts[2])
+            m2 = re.fullmatch(r" ?filename\*=UTF-8''((?:[A-Za-z0-9._~/!$&+^`|-]|%[0-9A-Fa-f]{2})+)", parts[2])
             if not m2:
                 raise Violation("S-header", f"{what}: bad filename* parameter in {cd!r}")
             try:
